@@ -1158,3 +1158,17 @@ TABLE["C08"] += [N("instantiated-declaration-parent-set-by-the-base-constructor-
 _FUNC_PARENT = (TI + "function.py", "        self.parent = original.parent\n", "        self.parent = ''\n")
 TABLE["C02"] += [B("instantiated-function-detached-from-its-namespace", {"S10"}, _FUNC_PARENT)]
 TABLE["C08"] += [B("instantiated-function-detached-from-its-namespace", {"N9"}, _FUNC_PARENT)]
+TABLE["C17"] += [
+    B("optional-parameters-counted-with-inverted-test", {"Q5"},
+      (XP, "                1 if param.find(\"defval\") is not None else 0", "                1 if param.find(\"defval\") is None else 0")),
+    B("defname-fallback-taken-when-declname-is-present", {"Q5"},
+      (XP, "                if param_name is None:\n                    param_name = params[i].find(\"defname\")", "                if param_name is not None:\n                    param_name = params[i].find(\"defname\")")),
+    B("overload-counter-starts-at-one", {"Q5"},
+      (XP, "                self._memory[function_key] = 0\n", "                self._memory[function_key] = 1\n")),
+]
+TABLE["C09"] += [
+    B("boost-alias-not-sanitised", {"W7"},
+      (PW, "                    new_name = re.sub(\"[,:<> ]\", \"\", cpp_class)\n", "                    pass\n")),
+    B("boost-alias-keeps-the-commas", {"W7"},
+      (PW, "                    new_name = re.sub(\"[,:<> ]\", \"\", cpp_class)\n", "                    new_name = re.sub(\"[:<> ]\", \"\", cpp_class)\n")),
+]
